@@ -316,12 +316,12 @@ class RedshiftBinningFactory:
         """Creates a binning linear in comoving distance between a min and max
         redshift."""
         comov_min, comov_cmax = self.cosmology.comoving_distance([min, max])
+        # distances stay of the kind returned by the cosmology (astropy: with
+        # units, custom cosmologies: plain Mpc values), as required for inversion
         comov_edges = np.linspace(comov_min, comov_cmax, num_bins + 1)
-        if not isinstance(comov_edges, units.Quantity):
-            comov_edges = comov_edges * units.Mpc
 
         edges = z_at_value(self.cosmology.comoving_distance, comov_edges)
-        edges = np.array(edges.value)
+        edges = np.array(getattr(edges, "value", edges), dtype=np.float64)
         edges[0] = min  # the inversion is only accurate to numerical precision
         edges[-1] = max
         return Binning(edges, closed=closed)
